@@ -171,6 +171,19 @@ theorem sign_mutation_partial (cr : Crypto) (cfg : ChainCfg) (h : Nat) (tx : Tx)
   obtain ⟨_, _, s', pk', hs', hrec', hver', hsrc'⟩ := (native_accept_iff cr cfg h _).1 hacc'
   exact ⟨sg, pk, s', pk', hs, hs', hrec, hrec', hver, hver', by rw [← hsrc', ← hsrc]⟩
 
+/-- The 65 signature bytes on the wire are exactly the bytes the recovery and the
+    verification see (`BytesToSign` then `Sign.Bytes()` is the identity), so two
+    different wire signatures — e.g. any single-bit flip — are different inputs to
+    the checks; nothing is normalised away by the big-integer representation. -/
+theorem sign_wire_faithful (b b' : Bytes) (sg sg' : Sign)
+    (h : bytesToSign b = some sg) (h' : bytesToSign b' = some sg') :
+    sg.bytes = b ∧ (b ≠ b' → sg.bytes ≠ sg'.bytes) := by
+  have e := sign_bytes_roundtrip b sg h
+  have e' := sign_bytes_roundtrip b' sg' h'
+  exact ⟨e, fun hne heq => hne (by rw [← e, ← e', heq])⟩
+
+example : ∃ b sg, bytesToSign b = some sg := ⟨List.replicate 65 1, _, rfl⟩
+
 /-! ### every hashed field is bound by the hash -/
 
 /-- the eight fields `GenHash` concatenates -/
